@@ -168,6 +168,40 @@ VTEXT = {'450': ('450', '4.0.0 try again later'), '550': ('550', '5.0.0 refused'
 LONG = 4200          # an over-long line: longer than the 4096-byte reads of slimta.smtp.io.IO
 
 
+def except_types():
+    """The exception types slimta/smtp/server.py has except-clauses for (read off its source once), plus the plain ones
+    an application callback fails with.  -> {name: zero-argument factory}"""
+    import ast
+    import inspect
+    import builtins
+    import slimta.smtp.server as srvmod
+    names = set(['RuntimeError', 'TypeError', 'OSError'])
+    for node in ast.walk(ast.parse(inspect.getsource(srvmod))):
+        if isinstance(node, ast.ExceptHandler) and node.type is not None:
+            for t in (node.type.elts if isinstance(node.type, ast.Tuple) else [node.type]):
+                names.add(t.id if isinstance(t, ast.Name) else getattr(t, 'attr', ''))
+    out = {}
+    for n in sorted(names):
+        obj = getattr(srvmod, n, None) or getattr(builtins, n, None)
+        if not (isinstance(obj, type) and issubclass(obj, BaseException)) or obj in (Exception, BaseException):
+            continue
+        if issubclass(obj, UnicodeDecodeError):
+            out[n] = lambda obj=obj: obj('ascii', b'caf\xe9', 3, 4, 'ordinal not in range(128)')
+            continue
+        for args in ((), ('scripted failure',)):
+            try:
+                obj(*args)
+            except Exception:
+                continue
+            out[n] = lambda obj=obj, args=args: obj(*args)
+            break
+    return out
+
+
+EXC_TYPES = except_types()
+# the server's own control-flow signals: raised by a callback they end the session the way the server ends it itself
+# (no reply is owed for them; the session must be over)
+SIGNAL_EXC = ('StopIteration', 'ConnectionLost')
 VERB_LABEL = {}      # 'V<spelling>' unit -> the class its mechanism names carry (filled by verb_spellings())
 
 
@@ -303,6 +337,12 @@ CLOSERS = {'EHLO': ['EHLO/421', 'EHLO/221', 'EHLO/raise', 'EHLO8bit'], 'HELO': [
 NONCLOSERS = {'EHLO': ['EHLO/550'], 'MAIL': ['MAIL/450', 'MAIL/550'], 'RCPT': ['RCPT/450', 'RCPT/550'],
               'DATA': ['DATA/550', 'DATA/ok/550', 'DATA/ok/qfail', 'DATAbig', 'DATAempty'], 'RSET': ['RSET/550'], 'NOOP': ['UNK', 'EMPTY'],
               'QUIT': ['QUIT/450', 'QUITarg'], 'XCMD': ['XCMD/550', 'XCMD/asis', 'XCMD/354'], 'AUTH': ['AUTH/550']}
+# a callback fails with each of the exception types the server has an except-clause for
+RAISE_CALLBACKS = ('EHLO', 'HELO', 'MAIL', 'RCPT', 'DATA', 'DATA/ok', 'RSET', 'NOOP', 'QUIT', 'STARTTLS', 'AUTH', 'XCMD')
+RAISES_ALL = ['%s/raise:%s' % (c, t) for c in RAISE_CALLBACKS for t in sorted(EXC_TYPES)]
+RAISES_CORE = (['%s/raise:UnicodeDecodeError' % c for c in RAISE_CALLBACKS]
+               + ['%s/raise:%s' % (c, t) for c in ('MAIL', 'DATA/ok') for t in sorted(EXC_TYPES) if t != 'UnicodeDecodeError'])
+RAISE_FOLLOW = ['DATA', 'RCPT', 'DATA', 'MAIL', 'RCPT', 'RSET', 'RCPT', 'DATA', 'QUIT']
 SYNC_PREFIXES = ('DATA', 'AUTH', 'STARTTLS')      # a pipelining client waits for the reply to these before it sends more
 # reduced alphabet for the depth-3 enumeration of the thorough tier
 ALPHA3 = ['EHLO', 'EHLO/550', 'HELO', 'MAIL', 'MAIL/550', 'MAIL/421', 'MAILnull', 'MAILnull/550', 'MAILnobr', 'MAILsize',
@@ -463,6 +503,8 @@ class Run(object):
         v = self.verdict(name)
         if v == 'raise':
             raise HandlerBoom('scripted failure of the %s callback' % name)
+        if v.startswith('raise:'):
+            raise EXC_TYPES[v[6:]]()
         if name == 'XCMD':
             if v == 'ok':
                 reply.code, reply.message = '250', '2.0.0 custom command done'
@@ -621,6 +663,11 @@ class Run(object):
         cbs, events = self.cbs, self.events
         self.out, self.cbs, self.events = [], [], []
         replies, junk = split_replies(raw)
+        if b'' in junk:
+            # the library's time-out reply is deliberately preceded by an empty line (Reply.newline_first): not a reply,
+            # not garbage either
+            self.observations['empty-line-before-reply'] += junk.count(b'')
+            junk = [j for j in junk if j != b'']
         self.final = final
         if self.pos == -1:
             self.multi = False
@@ -676,6 +723,9 @@ class Run(object):
             if stage == 0:
                 self.commands += 1
                 self._snapshot_before()
+            if final and self.multi and not left and any(c[3] in SIGNAL_EXC for c in cbs if c[4] == gi):
+                self.judge_slot(u, [], [c for c in cbs if c[4] == gi], [e for e in events if e[2] == gi])
+                break
             if final and self.multi and not left:
                 # taken by the server (gi <= taken), handle() is gone, and the reply never reached the client
                 lastu = self.units[group[taken][0]]
@@ -709,7 +759,9 @@ class Run(object):
         if hand and not (u.kind == 'data' and self.stage == 1):
             self.violate('handoff-outside-content', 'an envelope was handed off while answering %s' % u.sym,
                          envelope=hand[0][1])
-        if len(codes) != 1:
+        if not codes and any(c[3] in SIGNAL_EXC for c in cbs):
+            self.observations['callback-raised-server-signal-no-reply:' + [c[3] for c in cbs if c[3] in SIGNAL_EXC][0]] += 1
+        elif len(codes) != 1:
             self.violate('reply-count-%s' % ('0' if not codes else 'gt1'),
                          '%d replies %s to one %s (exactly one expected)'
                          % (len(codes), codes, 'command line' if self.stage == 0 else 'continuation/content'),
@@ -726,7 +778,9 @@ class Run(object):
 
     def judge_banner(self, codes, cbs, names, final):
         self._state_before, self._spec_before = 'connect', None
-        if len(codes) != 1:
+        if not codes and any(c[3] in SIGNAL_EXC for c in cbs):
+            self.observations['callback-raised-server-signal-no-reply:' + [c[3] for c in cbs if c[3] in SIGNAL_EXC][0]] += 1
+        elif len(codes) != 1:
             self.violate('reply-count-%s' % ('0' if not codes else 'gt1'), '%d greeting replies %s' % (len(codes), codes))
         if names:
             self.violate('foreign-callback', 'callbacks %s before any command' % names)
@@ -898,8 +952,8 @@ class Run(object):
             return       # mid-group: the implementation is already further on (its state is read at rest only)
         f = self.impl_flags()
         self.states.append((self.spec_tuple(), f, self.env_shape()))
-        if self.ended is not None:
-            return
+        if self.ended is not None or (self.final and self.pos != -1):
+            return       # the session is over (closing reply, or handle() has exited): nothing can observe its state any more
         self.hits['flags-invariant'] += 1
         bad = []
         if f[0] != self.greeted:
@@ -944,7 +998,7 @@ class RecHandler(object):
     def _do(self, name, reply, arg=None):
         try:
             self.run.apply(name, reply)
-        except HandlerBoom as e:
+        except BaseException as e:
             self.run.cb(name, arg, reply, e)
             raise
         self.run.cb(name, arg, reply)
@@ -1521,7 +1575,7 @@ def alphabet_for(ext, extra=False, verbs='core'):
     """extra: + the EXTRA symbols and the verbs spelled after internal names (core subset, or all of them)."""
     feats = EXT_FEATURES[ext]
     out = []
-    for s in ALPHABET + ((EXTRA + (VERBS_ALL if verbs == 'all' else VERBS_CORE)) if extra else []):
+    for s in ALPHABET + ((EXTRA + (VERBS_ALL + RAISES_ALL if verbs == 'all' else VERBS_CORE + RAISES_CORE)) if extra else []):
         b = s.split('/')[0]
         # without the extension these are all the same "unknown command": keep one representative each
         if 'AUTH' not in feats and b in AUTH_BASES and s != 'AUTH':
@@ -1736,6 +1790,20 @@ def gen_cases(tier, seed, shard, nshards):
                     if table[n % 100] == shard:
                         yield _case('verbs', ext, kind, banner, prefix + [v, 'EHLO', 'MAIL', 'RCPT', 'DATA'], fr)
                     n += 1
+    # every callback failing with every exception type the server has an except-clause for, then the commands that must
+    # find the transaction gone if the session survives
+    for ext, kind in CONFIGS:
+        for sym in RAISES_ALL:
+            cb = sym.split('/')[0]
+            prefix = {'EHLO': [], 'HELO': [], 'MAIL': ['EHLO'], 'AUTH': ['EHLO'], 'STARTTLS': ['EHLO']}.get(cb, ['EHLO', 'MAIL', 'RCPT'])
+            for fr in (1, 0):
+                if table[n % 100] == shard:
+                    yield _case('raises', ext, kind, 'ok', prefix + [sym] + RAISE_FOLLOW, fr)
+                n += 1
+        for t in sorted(EXC_TYPES):
+            if table[n % 100] == shard:
+                yield _case('raises', ext, kind, 'raise:' + t, ['EHLO', 'MAIL', 'RCPT', 'DATA', 'QUIT'])
+            n += 1
     # concurrent sessions
     for c in gen_concurrent(tier, seed, shard, table):
         yield c
